@@ -41,5 +41,11 @@ TEXTS = {
         "level_note": "As C06; additionally trusts the statement's reading that a period straddling an unaligned bound may be included or not.",
         "technique": "property-based testing (rapid), reference-model oracle with must/may sets",
     },
+    "C08": {
+        "level_text": "Exploration: generated datasets and predicates, each clause decided by the relation that defines it in the statement (second database with pre-filtered points, own HAVING evaluator over the HAVING-free rows, literal-list rewrite of the IN-subquery, reference aggregation of the materialised FROM-subquery). A wrong SQL-to-expression translation is caught rather than mirrored because the harness evaluates predicates itself.",
+        "design_ref": "DESIGN.md section 4 C08",
+        "level_note": "Trusts the harness's predicate and HAVING evaluators (h/model.go Pred.Eval, checks/c08_test.go evalHaving) on the type-consistent sub-domain, and the ingestion barrier / clock hooks.",
+        "technique": "property-based testing (rapid), differential + own-evaluator oracle",
+    },
 }
 NOT_APPLICABLE = []
